@@ -3,7 +3,7 @@ import json, os, sys, time, hashlib, traceback, z3
 from . import build
 
 VERIF = build.VERIF
-EVID = os.path.join(VERIF, 'evidence')
+EVID = os.environ.get('VERIF_EVIDENCE') or os.path.join(VERIF, 'evidence')
 KNOWN = os.path.join(VERIF, 'known_findings.json')
 
 
